@@ -29,6 +29,8 @@ def build_session(rng, tmp, kind, metric, ext, rep, tm):
     # whole dataset: [n rows that may be trained on][nu unlabeled rows][rest]; training = subset/permutation of the
     # non-unlabeled rows, test = everything not trained on (any split)
     Z = np.vstack([X, Xu, R])
+    if (n + nrest) % 4 == 0:
+        Z = Z.astype(np.float32)      # a dataset held in single precision: both routes must evaluate the metric on the same values
     labels_all = np.concatenate([Y, np.zeros(nu, dtype=int), np.array([rng.randrange(int(Y.max()) + 1) for _ in range(nrest)])])
     s.add(Z, "Z")
     s.add(labels_all, "labels")
